@@ -104,6 +104,18 @@ def check_tree(ctx, case, instance, errors, order):
             continue
         if te != total or ln != total:
             ctx.violation("total_errors", case, "at %r total_errors=%r len=%r, model %d" % (list(pre), te, ln, total))
+    # (the caller looks at the errors while holding the tree - prints the sub-errors' locations, say: that must not move
+    #  anything)
+    for e in seq:
+        for c in (e.context or ()):
+            _ = (list(c.absolute_path), list(c.absolute_schema_path))
+            if hasattr(c, "json_path"):
+                _ = c.json_path
+    if [tuple(e.path) for e in seq] != paths:
+        k = next(i for i, e in enumerate(seq) if tuple(e.path) != paths[i])
+        ctx.violation("path-moved-by-reading-sub-errors", case, "error %d had path %r when the tree was built; after the absolute paths of its "
+                      "context errors were read it is %r" % (k, list(paths[k]), list(seq[k].path)))
+        return
     # 2. every error is filed under its keyword at its path
     for e in seq:
         node = nodes.get(tuple(e.path))
